@@ -4,7 +4,7 @@ from . import exprgen as G
 from .engine import Case, Prop
 
 
-def expr_cases(items, tag_of=None):
+def expr_cases(items, tag_of=None, starstar=False):
     """items: list of (expr, layout, tag). Renders through the spec (driver `expr`)
     and returns `query` cases carrying the spec's expected value."""
     lines = [G.expr_line(e, l) for e, l, _ in items]
@@ -17,6 +17,11 @@ def expr_cases(items, tag_of=None):
         if f[3] != "1":
             raise RuntimeError(f"generator produced a non-WF expression: {C.unhex(f[1])!r}")
         cases.append(Case("query " + f[1], tag, C.unhex(f[1]), expect=f[2]))
+        text = C.unhex(f[1])
+        if starstar and "^" in text and len(cases) % 3 == 0:
+            # `**` is the other spelling of the power operator (token STARSTAR, same OP_POWER)
+            t2 = text.replace("^", "**")
+            cases.append(Case("query " + C.hexs(t2), tag + "-starstar", t2, expect=f[2]))
     return cases
 
 
@@ -72,7 +77,7 @@ class C06(ExprProp):
         for _ in range(n):
             e = G.rand_expr(rng, rng.range(2, 5), calls=True)
             items.append((e, G.layout_for(e, rng, rng.choice(["canon", "tight", "random"])), "random-deep"))
-        return expr_cases(items)
+        return expr_cases(items, starstar=True)
 
 
 class C01(ExprProp):
